@@ -24,11 +24,11 @@ import (
 )
 
 type tcase struct {
-	Group string                              `json:"group"`
-	Tpl   string                              `json:"template"`
-	Extra map[string]string                   `json:"extra_templates,omitempty"`
-	Ctx   string                              `json:"context"`
-	mk    func() map[string]interface{}       `json:"-"`
+	Group string                        `json:"group"`
+	Tpl   string                        `json:"template"`
+	Extra map[string]string             `json:"extra_templates,omitempty"`
+	Ctx   string                        `json:"context"`
+	mk    func() map[string]interface{} `json:"-"`
 	// ptr: the context holds a struct with a pointer field that is printed by value (KF-C03-1)
 	ptr bool
 }
@@ -402,11 +402,15 @@ func checkCase(c tcase, dev int, nativeRuns int) *vlib.Outcome {
 func main() {
 	os.Setenv("TZ", "UTC")
 	time.Local = time.UTC
+	if spec := os.Getenv("C03_AGAIN"); spec != "" {
+		againChild(spec)
+		return
+	}
 	vlib.Main(vlib.Spec{
 		ID:    "C03",
 		Level: "model_checking",
 		Rule: "every (template, context) case x every assignment of key permutations to the map-iteration points the render reaches, within the order-deviation bound " +
-			"(n! permutations for n<=4 keys; rotations+reversal+transpositions above); non-trivial = at least one iteration point with >=2 keys is reached, or the case prints pointers / date formats",
+			"(n! permutations for n<=4 keys; rotations+reversal+transpositions above); plus the whole non-date corpus rendered in fresh child processes in forward, reverse and rotated orders (fresh engine per case and one shared engine, every template twice): each template's bytes must not depend on the order or the process; non-trivial = at least one iteration point with >=2 keys is reached, or the case prints pointers / date formats",
 		Assumptions: []string{
 			"map iteration inside package twig is routed through the order oracle by a build-time rewrite of range-over-map and MapKeys(); clear/copy loops whose order cannot be observed are left alone",
 			"for maps with more than 4 keys the alternatives are rotations, reversal and transpositions (not all n! orders)",
@@ -425,6 +429,7 @@ func main() {
 				c := c
 				t.Case(c.Group+"|"+c.Ctx+"|"+c.Tpl, func() *vlib.Outcome { return checkCase(c, dev, native) })
 			}
+			againCases(t)
 		},
 		Extra: func(tier string, cov map[string]interface{}) {
 			cov["states"] = cov["iteration_points"]
